@@ -37,7 +37,7 @@ fn gen_cmd(src: &mut Src, uniq: &mut u64, hashes: bool, type_changes: bool, expi
     match pick {
         0 | 1 => vec![b("SET"), skey, v],
         2 => vec![b("SET"), skey, v, b(if src.chance(1, 2) { "NX" } else { "XX" })],
-        3 => vec![b("SET"), skey, v, b("GET")],
+        3 => match src.below(4) { 0 => vec![b("SET"), skey, v, b("NX"), b("GET")], 1 => vec![b("SET"), skey, v, b("XX"), b("GET")], _ => vec![b("SET"), skey, v, b("GET")] },
         4 => if expiry { if src.chance(1, 2) { vec![b("SET"), skey, v, b("EX"), b(["100", "1", "0"][src.idx(3)])] } else { vec![b("SET"), skey, v, b("PX"), b(["100000", "1500", "500", "1"][src.idx(4)])] } } else { vec![b("SET"), skey, v] },
         5 => vec![b("DEL"), skey],
         6 => vec![b(["INCR", "DECR"][src.idx(2)]), b("ctr")],
